@@ -50,6 +50,13 @@ def main(chk, args):
         if o.get('error'):
             chk.violation(k, o['error'], dict(case=c))
             continue
+        if not c['conventional']:
+            # an admitted set outside the profile of Features.tla (see featrun.get_cases): the test INVENTORY of the specification does
+            # not cover it; what counts is that no emitted test fails
+            if o['failures'] or o['errors']:
+                chk.violation('F{' + ','.join(sorted(c['features'])) + '}', f"emitted tests failed: {o['failed_names'][:5]} "
+                              f"(failures={o['failures']}, errors={o['errors']})", dict(case=c, failed=o['failed_names'][:30]))
+            continue
         traces.append(dict(features=c['features'], tests=o['tests'], failures=o['failures'], errors=o['errors']))
         keys.append((k, c, o))
     accepted, rejected, runs = tlc.validate_all('FeaturesTrace', 'FeaturesTrace.cfg', traces, timeout=900, max_rejects=40)
